@@ -422,7 +422,10 @@ def recycle_case(draw: Any) -> Dict[str, Any]:
     # when the threshold is crossed - taking a request on is what counts, not finishing it
     slow = draw(st.sampled_from([0.0, 0.0, 5.0])) if per_conn == 1 else 0.0
     return {"kind": "recycle", "m": m, "j": j, "draw": draw(st.integers(0, j)), "slow": slow,
-            "per_conn": per_conn, "sched": draw(st.integers(0, 999))}
+            "per_conn": per_conn, "sched": draw(st.integers(0, 999)),
+            # serve() with or without a shutdown_trigger of the caller's: recycling is the
+            # worker's own business either way
+            "callable": draw(st.booleans())}
 
 
 def run_recycle(case: Dict[str, Any]) -> CaseInfo:
@@ -446,7 +449,7 @@ def run_recycle(case: Dict[str, Any]) -> CaseInfo:
     limit = m + case["draw"]
 
     async def sc(env: Any) -> Any:
-        env.start_server()
+        env.start_server(callable_trigger=case.get("callable", True))
         await env.settle0()
         sent = 0
         conn = None
